@@ -1,3 +1,758 @@
 // harnesses mounted as child module of agdb/src/graph_search.rs
 #[allow(unused_imports)]
 use super::*;
+
+use crate::graph::verif_h::{
+    ArrG, RefGraph, graph_slot_order, graph_step, new_arr_graph,
+};
+use crate::verif_support::{ArrStorage, GN, ok};
+
+// ---------------------------------------------------------------------------
+// Recording handlers
+// ---------------------------------------------------------------------------
+
+pub(crate) const RECN: usize = 2 * GN;
+
+/// What the handler was asked, in order.
+pub(crate) struct Rec {
+    pub idx: [i64; RECN],
+    pub dist: [u64; RECN],
+    pub n: usize,
+}
+
+impl Rec {
+    pub(crate) fn new() -> Self {
+        Rec {
+            idx: [0; RECN],
+            dist: [0; RECN],
+            n: 0,
+        }
+    }
+}
+
+/// Per-slot answer: `sel[slot]` = add, `ctl[slot]` = 0 Continue, 1 Stop, 2 Finish.
+pub(crate) struct RecHandler<'r> {
+    pub rec: &'r mut Rec,
+    pub sel: [bool; GN],
+    pub ctl: [u8; GN],
+}
+
+impl SearchHandler for RecHandler<'_> {
+    fn process(&mut self, index: GraphIndex, distance: u64) -> Result<SearchControl, DbError> {
+        let n = self.rec.n;
+        assert!(n < RECN, "handler called more often than there are elements");
+        self.rec.idx[n] = index.0;
+        self.rec.dist[n] = distance;
+        self.rec.n = n + 1;
+        let sl = index.as_u64() as usize;
+        assert!(sl >= 1 && sl < GN, "handler given an id outside the slots");
+        let add = self.sel[sl];
+        Ok(match self.ctl[sl] {
+            0 => SearchControl::Continue(add),
+            1 => SearchControl::Stop(add),
+            _ => SearchControl::Finish(add),
+        })
+    }
+}
+
+// ---------------------------------------------------------------------------
+// C18: elements search
+// ---------------------------------------------------------------------------
+
+/// Concrete history with a cascade removal and slot reuse: nodes 1,2,3; 1->2; 2->3;
+/// remove node 2 (frees three slots); insert node; insert edge 1->3. One slot stays free.
+fn c18_history_a(g: &mut ArrG, s: &mut crate::storage::Storage<ArrStorage>, m: &mut RefGraph) {
+    graph_step(g, s, m, 0, 0, 0);
+    graph_step(g, s, m, 0, 0, 0);
+    graph_step(g, s, m, 0, 0, 0);
+    graph_step(g, s, m, 1, 1, 2);
+    graph_step(g, s, m, 1, 2, 3);
+    graph_step(g, s, m, 2, 2, 0);
+    graph_step(g, s, m, 0, 0, 0);
+    graph_step(g, s, m, 1, 1, 3);
+}
+
+/// Concrete history where an edge slot is reused by a node: nodes 1,2; 1->1; remove
+/// that edge; insert node (gets slot 3); insert edge 3->1; remove node 2 (slot 2 free).
+fn c18_history_b(g: &mut ArrG, s: &mut crate::storage::Storage<ArrStorage>, m: &mut RefGraph) {
+    graph_step(g, s, m, 0, 0, 0);
+    graph_step(g, s, m, 0, 0, 0);
+    graph_step(g, s, m, 1, 1, 1);
+    graph_step(g, s, m, 3, -3, 0);
+    graph_step(g, s, m, 0, 0, 0);
+    graph_step(g, s, m, 1, 3, 1);
+    graph_step(g, s, m, 2, 2, 0);
+}
+
+fn c18_all(g: &ArrG, s: &crate::storage::Storage<ArrStorage>, m: &RefGraph) -> usize {
+    let mut exp = [0i64; GN];
+    let n = graph_slot_order(m, &mut exp);
+    let mut rec = Rec::new();
+    let h = RecHandler {
+        rec: &mut rec,
+        sel: [true; GN],
+        ctl: [0; GN],
+    };
+    let res = ok(GraphSearch::from((g, s)).elements(h));
+    assert!(rec.n == n, "number of examined elements differs from the live elements");
+    assert!(res.len() == n, "result length differs from the live elements");
+    let mut k = 0;
+    while k < m.lim {
+        if k < n {
+            assert!(rec.idx[k] == exp[k], "examined element differs from slot order");
+            assert!(rec.dist[k] == k as u64, "distance is not the position");
+            assert!(res[k].0 == exp[k], "result element differs from slot order");
+        }
+        k += 1;
+    }
+    std::mem::forget(res);
+    n
+}
+
+//@ id=C18 tier=quick timeout=600 bounds="three concrete histories: (a) nodes 1,2,3, edges 1->2, 2->3, remove node 2 with its two edges, insert node, insert edge 1->3 (two freed slots reused, one stays free); (b) edge slot reused by a node, later node removal leaves a gap; (c) empty graph; handler always Continue(true)" desc="GraphSearch::elements examines every live element exactly once in increasing slot number (edges negative, removed slots absent) with distance = position, and returns exactly that sequence" kernel="ElementSearch::search,GraphSearch::elements,GraphIterator::next,GraphImpl::next_element" args="--no-assertion-reach-checks" cbmc="--unwindset _RINvNtCs8xvirJzNMvV_4core3ptr9drop_glueNtNtNtCsblifWy3Zr35_4agdb2db8db_error7DbErrorEBH_:1"
+#[kani::proof]
+#[kani::stub(std::fmt::format, crate::verif_support::fmt_stub)]
+#[kani::stub(crate::DbError::new, crate::verif_support::dberror_new_stub)]
+#[kani::unwind(8)]
+fn c18_elements_all() {
+    let mut s = crate::storage::verif_h::fresh_arr_storage();
+    let mut g = new_arr_graph();
+    let mut m = RefGraph::with_limit(6);
+    c18_history_a(&mut g, &mut s, &mut m);
+    let n = c18_all(&g, &s, &m);
+    assert!(n == 4 && m.cap == 6, "history (a): four live elements in five slots");
+    let mut g2 = new_arr_graph();
+    let mut m2 = RefGraph::with_limit(6);
+    c18_history_b(&mut g2, &mut s, &mut m2);
+    let n2 = c18_all(&g2, &s, &m2);
+    assert!(n2 == 3 && m2.is_node(3) && m2.is_edge(-4) && !m2.is_node(2), "history (b): node 1, node 3 in a former edge slot, edge -4");
+    let g3 = new_arr_graph();
+    let m3 = RefGraph::with_limit(6);
+    let n3 = c18_all(&g3, &s, &m3);
+    assert!(n3 == 0, "empty graph has no elements");
+    kani::cover!(true, "end of harness reachable");
+    std::mem::forget(s);
+}
+
+//@ id=C18 tier=quick timeout=900 bounds="concrete history (a) of c18_elements_all (live: node 1, node 3, one reused node slot, one reused edge slot, one free slot); handler answers per slot with a symbolic boolean and a symbolic control (Continue / Stop / Finish)" desc="GraphSearch::elements returns exactly the selected live elements in slot order; Stop does not end the scan; Finish ends it after the element at which it is returned (which is still included when selected); nothing after it is examined" kernel="ElementSearch::search,GraphSearch::elements,GraphIterator::next,GraphImpl::next_element" args="--no-assertion-reach-checks" cbmc="--unwindset _RINvNtCs8xvirJzNMvV_4core3ptr9drop_glueNtNtNtCsblifWy3Zr35_4agdb2db8db_error7DbErrorEBH_:1"
+#[kani::proof]
+#[kani::stub(std::fmt::format, crate::verif_support::fmt_stub)]
+#[kani::stub(crate::DbError::new, crate::verif_support::dberror_new_stub)]
+#[kani::unwind(8)]
+fn c18_elements_filtered() {
+    let mut s = crate::storage::verif_h::fresh_arr_storage();
+    let mut g = new_arr_graph();
+    let mut m = RefGraph::with_limit(6);
+    c18_history_a(&mut g, &mut s, &mut m);
+    let mut exp = [0i64; GN];
+    let n = graph_slot_order(&m, &mut exp);
+    let mut sel = [false; GN];
+    let mut ctl = [0u8; GN];
+    sel[1] = kani::any();
+    sel[2] = kani::any();
+    sel[3] = kani::any();
+    sel[4] = kani::any();
+    sel[5] = kani::any();
+    ctl[1] = kani::any();
+    ctl[2] = kani::any();
+    ctl[3] = kani::any();
+    ctl[4] = kani::any();
+    ctl[5] = kani::any();
+    let mut rec = Rec::new();
+    let h = RecHandler {
+        rec: &mut rec,
+        sel,
+        ctl,
+    };
+    let res = ok(GraphSearch::from((&g, &s)).elements(h));
+    // reference: walk the slot order, stop after the first Finish
+    let mut want = [0i64; GN];
+    let mut wn = 0;
+    let mut examined = 0;
+    let mut finished = false;
+    let mut k = 0;
+    while k < m.lim {
+        if k < n && !finished {
+            let sl = exp[k].unsigned_abs() as usize;
+            examined += 1;
+            if sel[sl] {
+                want[wn] = exp[k];
+                wn += 1;
+            }
+            if ctl[sl] >= 2 {
+                finished = true;
+            }
+        }
+        k += 1;
+    }
+    assert!(rec.n == examined, "number of examined elements differs");
+    assert!(res.len() == wn, "result length differs from the selected elements");
+    let mut k = 0;
+    while k < m.lim {
+        if k < examined {
+            assert!(rec.idx[k] == exp[k], "examined element differs from slot order");
+        }
+        if k < wn {
+            assert!(res[k].0 == want[k], "result element differs from the selected elements");
+        }
+        k += 1;
+    }
+    kani::cover!(n == 4 && wn == 4, "everything selected");
+    kani::cover!(wn == 2 && examined == n && !finished, "a strict subset selected, no Finish");
+    kani::cover!(finished && examined == 2 && wn == 1, "Finish at the second element");
+    kani::cover!(wn == 0 && examined == n, "nothing selected");
+    kani::cover!(true, "end of harness reachable");
+    std::mem::forget(res);
+    std::mem::forget(s);
+}
+
+// ---------------------------------------------------------------------------
+// C14: reference traversals (documented semantics, independent formulation)
+// ---------------------------------------------------------------------------
+
+/// Newest edge attached to `node` (outgoing, or incoming when `reverse`) that is
+/// older than `below`; 0 if there is none.
+fn c14_next_edge(m: &RefGraph, node: i64, reverse: bool, below: u32) -> usize {
+    let mut best = 0usize;
+    let mut best_seq = 0u32;
+    let mut i = 1;
+    while i < m.lim {
+        let at = if reverse { m.et[i] } else { m.ef[i] };
+        if m.kind[i] == 2 && at == node && m.seq[i] < below && m.seq[i] >= best_seq {
+            best = i;
+            best_seq = m.seq[i];
+        }
+        i += 1;
+    }
+    best
+}
+
+fn c14_push(out: &mut Rec, x: i64, d: u64) {
+    out.idx[out.n] = x;
+    out.dist[out.n] = d;
+    out.n += 1;
+}
+
+/// Level-by-level breadth-first order: origin at distance 0; a node's edges
+/// (newest first) one step further, an edge's far end one step further; within a
+/// level, children follow the order of their parents.
+fn c14_ref_bfs(m: &RefGraph, origin: i64, reverse: bool, out: &mut Rec) {
+    let mut seen = [false; GN];
+    let mut lvl = [0i64; GN];
+    let mut nl = 1;
+    lvl[0] = origin;
+    seen[RefGraph::slot(origin)] = true;
+    let mut d = 0u64;
+    let mut rounds = 0;
+    while rounds < m.lim && nl > 0 {
+        let mut next = [0i64; GN];
+        let mut nn = 0;
+        let mut k = 0;
+        while k < m.lim {
+            if k < nl {
+                let x = lvl[k];
+                c14_push(out, x, d);
+                if x > 0 {
+                    let mut below = u32::MAX;
+                    let mut j = 1;
+                    while j < m.lim {
+                        let e = c14_next_edge(m, x, reverse, below);
+                        if e != 0 {
+                            below = m.seq[e];
+                            if !seen[e] {
+                                seen[e] = true;
+                                next[nn] = -(e as i64);
+                                nn += 1;
+                            }
+                        }
+                        j += 1;
+                    }
+                } else {
+                    let e = RefGraph::slot(x);
+                    let t = if reverse { m.ef[e] } else { m.et[e] };
+                    let ts = RefGraph::slot(t);
+                    if !seen[ts] {
+                        seen[ts] = true;
+                        next[nn] = t;
+                        nn += 1;
+                    }
+                }
+            }
+            k += 1;
+        }
+        lvl = next;
+        nl = nn;
+        d += 1;
+        rounds += 1;
+    }
+}
+
+/// Depth-first pre-order: each branch is followed to its end before the next
+/// (older) edge of the same node is examined.
+fn c14_ref_dfs(m: &RefGraph, x: i64, d: u64, reverse: bool, seen: &mut [bool; GN], out: &mut Rec) {
+    c14_push(out, x, d);
+    seen[RefGraph::slot(x)] = true;
+    if x > 0 {
+        let mut below = u32::MAX;
+        let mut j = 1;
+        while j < m.lim {
+            let e = c14_next_edge(m, x, reverse, below);
+            if e != 0 {
+                below = m.seq[e];
+                if !seen[e] {
+                    c14_ref_dfs(m, -(e as i64), d + 1, reverse, seen, out);
+                }
+            }
+            j += 1;
+        }
+    } else {
+        let e = RefGraph::slot(x);
+        let t = if reverse { m.ef[e] } else { m.et[e] };
+        if !seen[RefGraph::slot(t)] {
+            c14_ref_dfs(m, t, d + 1, reverse, seen, out);
+        }
+    }
+}
+
+/// Reachability by fix-point over the reference edges (independent of any order).
+fn c14_reach(m: &RefGraph, origin: i64, reverse: bool) -> [bool; GN] {
+    let mut r = [false; GN];
+    r[RefGraph::slot(origin)] = true;
+    let mut round = 0;
+    while round < m.lim {
+        let mut e = 1;
+        while e < m.lim {
+            if m.kind[e] == 2 {
+                let (a, b) = if reverse { (m.et[e], m.ef[e]) } else { (m.ef[e], m.et[e]) };
+                if r[RefGraph::slot(a)] {
+                    r[e] = true;
+                }
+                if r[e] {
+                    r[RefGraph::slot(b)] = true;
+                }
+            }
+            e += 1;
+        }
+        round += 1;
+    }
+    r
+}
+
+/// alg: 0 breadth_first_search, 1 depth_first_search, 2 breadth_first_search_reverse,
+/// 3 depth_first_search_reverse. Runs the real search with the always-Continue(true)
+/// handler and compares with the reference. Returns what the handler saw.
+fn c14_run(g: &ArrG, s: &crate::storage::Storage<ArrStorage>, m: &RefGraph, alg: u8, origin: i64) -> Rec {
+    let mut rec = Rec::new();
+    let h = RecHandler {
+        rec: &mut rec,
+        sel: [true; GN],
+        ctl: [0; GN],
+    };
+    let search = GraphSearch::from((g, s));
+    let res = ok(match alg {
+        0 => search.breadth_first_search(GraphIndex(origin), h),
+        1 => search.depth_first_search(GraphIndex(origin), h),
+        2 => search.breadth_first_search_reverse(GraphIndex(origin), h),
+        _ => search.depth_first_search_reverse(GraphIndex(origin), h),
+    });
+    let reverse = alg >= 2;
+    let mut exp = Rec::new();
+    if alg == 0 || alg == 2 {
+        c14_ref_bfs(m, origin, reverse, &mut exp);
+    } else {
+        let mut seen = [false; GN];
+        c14_ref_dfs(m, origin, 0, reverse, &mut seen, &mut exp);
+    }
+    // set view: exactly the reachable elements, each once, origin first
+    let reach = c14_reach(m, origin, reverse);
+    let mut cnt = [0u8; GN];
+    let mut k = 0;
+    while k < m.lim {
+        if k < res.len() {
+            let sl = RefGraph::slot(res[k].0);
+            assert!(sl != 0 && reach[sl], "result contains an element that is not reachable from the origin");
+            assert!((res[k].0 < 0) == (m.kind[sl] == 2), "result id has the wrong sign");
+            cnt[sl] += 1;
+        }
+        k += 1;
+    }
+    assert!(res.len() < m.lim, "result longer than the graph");
+    let mut sl = 1;
+    while sl < m.lim {
+        assert!(cnt[sl] == if reach[sl] { 1 } else { 0 }, "a reachable element is missing or returned twice");
+        sl += 1;
+    }
+    assert!(res.len() >= 1 && res[0].0 == origin && rec.dist[0] == 0, "origin is not first at distance 0");
+    // order view
+    assert!(rec.n == res.len(), "handler calls differ from the result");
+    assert!(exp.n == res.len(), "result length differs from the reference traversal");
+    let mut k = 0;
+    while k < m.lim {
+        if k < res.len() {
+            assert!(rec.idx[k] == res[k].0, "result order differs from examination order");
+            assert!(res[k].0 == exp.idx[k], "order differs from the reference traversal");
+            assert!(rec.dist[k] == exp.dist[k], "distance differs from the reference traversal");
+            if (alg == 0 || alg == 2) && k > 0 {
+                assert!(rec.dist[k - 1] <= rec.dist[k], "breadth-first distances decrease");
+            }
+        }
+        k += 1;
+    }
+    std::mem::forget(res);
+    rec
+}
+
+fn c14_is(rec: &Rec, idx: &[i64], dist: &[u64]) -> bool {
+    let mut same = rec.n == idx.len();
+    let mut k = 0;
+    while k < idx.len() {
+        same = same && rec.idx[k] == idx[k] && rec.dist[k] == dist[k];
+        k += 1;
+    }
+    same
+}
+
+//@ id=C14 tier=quick timeout=900 bounds="concrete graph: nodes 1,2,3; edges -4 = 1->2, -5 = 1->3, -6 = 2->3 (node 3 reachable over two branches of different length); every node as origin; breadth_first_search and depth_first_search; handler always Continue(true)" desc="origin first at distance 0, then exactly the reachable elements once each (fix-point reachability), in the order and with the distances of the documented traversal (BFS level by level in non-decreasing distance, DFS each branch to its end, a node's edges newest first, distance counts node and edge steps); hand-derived sequences asserted literally" kernel="GraphSearch::breadth_first_search,GraphSearch::depth_first_search,SearchImpl::search,SearchImpl::process_index,SearchImpl::visit_index,BreadthFirstSearch::expand,DepthFirstSearch::expand,BitSet::set,BitSet::value" args="--no-assertion-reach-checks" cbmc="--unwindset _RINvNtCs8xvirJzNMvV_4core3ptr9drop_glueNtNtNtCsblifWy3Zr35_4agdb2db8db_error7DbErrorEBH_:1"
+#[kani::proof]
+#[kani::stub(std::fmt::format, crate::verif_support::fmt_stub)]
+#[kani::stub(crate::DbError::new, crate::verif_support::dberror_new_stub)]
+#[kani::unwind(12)]
+fn c14_triangle_forward() {
+    let mut s = crate::storage::verif_h::fresh_arr_storage();
+    let mut g = new_arr_graph();
+    let mut m = RefGraph::with_limit(7);
+    graph_step(&mut g, &mut s, &mut m, 0, 0, 0);
+    graph_step(&mut g, &mut s, &mut m, 0, 0, 0);
+    graph_step(&mut g, &mut s, &mut m, 0, 0, 0);
+    graph_step(&mut g, &mut s, &mut m, 1, 1, 2);
+    graph_step(&mut g, &mut s, &mut m, 1, 1, 3);
+    graph_step(&mut g, &mut s, &mut m, 1, 2, 3);
+    let r = c14_run(&g, &s, &m, 0, 1);
+    assert!(c14_is(&r, &[1, -5, -4, 3, 2, -6], &[0, 1, 1, 2, 2, 3]), "BFS from 1: literal sequence");
+    std::mem::forget(r);
+    let r = c14_run(&g, &s, &m, 0, 2);
+    assert!(c14_is(&r, &[2, -6, 3], &[0, 1, 2]), "BFS from 2: only the reachable part");
+    std::mem::forget(r);
+    let r = c14_run(&g, &s, &m, 0, 3);
+    assert!(c14_is(&r, &[3], &[0]), "BFS from a sink: origin only");
+    std::mem::forget(r);
+    let r = c14_run(&g, &s, &m, 1, 1);
+    assert!(c14_is(&r, &[1, -5, 3, -4, 2, -6], &[0, 1, 2, 1, 2, 3]), "DFS from 1: literal sequence");
+    std::mem::forget(r);
+    let r = c14_run(&g, &s, &m, 1, 2);
+    assert!(c14_is(&r, &[2, -6, 3], &[0, 1, 2]), "DFS from 2");
+    std::mem::forget(r);
+    let r = c14_run(&g, &s, &m, 1, 3);
+    std::mem::forget(r);
+    kani::cover!(true, "end of harness reachable");
+    std::mem::forget(s);
+}
+
+//@ id=C14 tier=quick timeout=900 bounds="concrete graph: nodes 1,2,3; edges -4 = 1->2, -5 = 1->3, -6 = 2->3; every node as origin; breadth_first_search_reverse and depth_first_search_reverse; handler always Continue(true)" desc="origin first at distance 0, then exactly the reachable elements once each (fix-point reachability), in the order and with the distances of the documented traversal (BFS level by level in non-decreasing distance, DFS each branch to its end, a node's edges newest first, distance counts node and edge steps); hand-derived sequences asserted literally" kernel="GraphSearch::breadth_first_search_reverse,GraphSearch::depth_first_search_reverse,SearchImpl::search,SearchImpl::process_index,SearchImpl::visit_index,BreadthFirstSearchReverse::expand,DepthFirstSearchReverse::expand,BitSet::set,BitSet::value" args="--no-assertion-reach-checks" cbmc="--unwindset _RINvNtCs8xvirJzNMvV_4core3ptr9drop_glueNtNtNtCsblifWy3Zr35_4agdb2db8db_error7DbErrorEBH_:1"
+#[kani::proof]
+#[kani::stub(std::fmt::format, crate::verif_support::fmt_stub)]
+#[kani::stub(crate::DbError::new, crate::verif_support::dberror_new_stub)]
+#[kani::unwind(12)]
+fn c14_triangle_reverse() {
+    let mut s = crate::storage::verif_h::fresh_arr_storage();
+    let mut g = new_arr_graph();
+    let mut m = RefGraph::with_limit(7);
+    graph_step(&mut g, &mut s, &mut m, 0, 0, 0);
+    graph_step(&mut g, &mut s, &mut m, 0, 0, 0);
+    graph_step(&mut g, &mut s, &mut m, 0, 0, 0);
+    graph_step(&mut g, &mut s, &mut m, 1, 1, 2);
+    graph_step(&mut g, &mut s, &mut m, 1, 1, 3);
+    graph_step(&mut g, &mut s, &mut m, 1, 2, 3);
+    let r = c14_run(&g, &s, &m, 2, 3);
+    assert!(c14_is(&r, &[3, -6, -5, 2, 1, -4], &[0, 1, 1, 2, 2, 3]), "reverse BFS from 3: literal sequence");
+    std::mem::forget(r);
+    let r = c14_run(&g, &s, &m, 2, 2);
+    assert!(c14_is(&r, &[2, -4, 1], &[0, 1, 2]), "reverse BFS from 2");
+    std::mem::forget(r);
+    let r = c14_run(&g, &s, &m, 2, 1);
+    assert!(c14_is(&r, &[1], &[0]), "reverse BFS from a source: origin only");
+    std::mem::forget(r);
+    let r = c14_run(&g, &s, &m, 3, 3);
+    assert!(c14_is(&r, &[3, -6, 2, -4, 1, -5], &[0, 1, 2, 3, 4, 1]), "reverse DFS from 3: literal sequence");
+    std::mem::forget(r);
+    let r = c14_run(&g, &s, &m, 3, 2);
+    std::mem::forget(r);
+    let r = c14_run(&g, &s, &m, 3, 1);
+    std::mem::forget(r);
+    kani::cover!(true, "end of harness reachable");
+    std::mem::forget(s);
+}
+
+//@ id=C14 tier=quick timeout=900 bounds="concrete graph: cycle 1->2 (-4), 2->3 (-5), 3->1 (-6); every node as origin; breadth_first_search and depth_first_search; handler always Continue(true)" desc="origin first at distance 0, then exactly the reachable elements once each (fix-point reachability), in the order and with the distances of the documented traversal (BFS level by level in non-decreasing distance, DFS each branch to its end, a node's edges newest first, distance counts node and edge steps); hand-derived sequences asserted literally; the search terminates on the cycle and does not return the origin twice" kernel="GraphSearch::breadth_first_search,GraphSearch::depth_first_search,SearchImpl::search,SearchImpl::process_index,SearchImpl::visit_index,BreadthFirstSearch::expand,DepthFirstSearch::expand,BitSet::set,BitSet::value" args="--no-assertion-reach-checks" cbmc="--unwindset _RINvNtCs8xvirJzNMvV_4core3ptr9drop_glueNtNtNtCsblifWy3Zr35_4agdb2db8db_error7DbErrorEBH_:1"
+#[kani::proof]
+#[kani::stub(std::fmt::format, crate::verif_support::fmt_stub)]
+#[kani::stub(crate::DbError::new, crate::verif_support::dberror_new_stub)]
+#[kani::unwind(12)]
+fn c14_cycle_forward() {
+    let mut s = crate::storage::verif_h::fresh_arr_storage();
+    let mut g = new_arr_graph();
+    let mut m = RefGraph::with_limit(7);
+    graph_step(&mut g, &mut s, &mut m, 0, 0, 0);
+    graph_step(&mut g, &mut s, &mut m, 0, 0, 0);
+    graph_step(&mut g, &mut s, &mut m, 0, 0, 0);
+    graph_step(&mut g, &mut s, &mut m, 1, 1, 2);
+    graph_step(&mut g, &mut s, &mut m, 1, 2, 3);
+    graph_step(&mut g, &mut s, &mut m, 1, 3, 1);
+    let r = c14_run(&g, &s, &m, 0, 2);
+    assert!(c14_is(&r, &[2, -5, 3, -6, 1, -4], &[0, 1, 2, 3, 4, 5]), "BFS from 2 round the cycle");
+    std::mem::forget(r);
+    let r = c14_run(&g, &s, &m, 0, 1);
+    std::mem::forget(r);
+    let r = c14_run(&g, &s, &m, 0, 3);
+    std::mem::forget(r);
+    let r = c14_run(&g, &s, &m, 1, 2);
+    assert!(c14_is(&r, &[2, -5, 3, -6, 1, -4], &[0, 1, 2, 3, 4, 5]), "DFS from 2 round the cycle");
+    std::mem::forget(r);
+    let r = c14_run(&g, &s, &m, 1, 1);
+    std::mem::forget(r);
+    let r = c14_run(&g, &s, &m, 1, 3);
+    std::mem::forget(r);
+    kani::cover!(true, "end of harness reachable");
+    std::mem::forget(s);
+}
+
+//@ id=C14 tier=quick timeout=900 bounds="concrete graph: cycle 1->2 (-4), 2->3 (-5), 3->1 (-6); every node as origin; breadth_first_search_reverse and depth_first_search_reverse; handler always Continue(true)" desc="origin first at distance 0, then exactly the reachable elements once each (fix-point reachability), in the order and with the distances of the documented traversal (BFS level by level in non-decreasing distance, DFS each branch to its end, a node's edges newest first, distance counts node and edge steps); hand-derived sequences asserted literally" kernel="GraphSearch::breadth_first_search_reverse,GraphSearch::depth_first_search_reverse,SearchImpl::search,SearchImpl::process_index,SearchImpl::visit_index,BreadthFirstSearchReverse::expand,DepthFirstSearchReverse::expand,BitSet::set,BitSet::value" args="--no-assertion-reach-checks" cbmc="--unwindset _RINvNtCs8xvirJzNMvV_4core3ptr9drop_glueNtNtNtCsblifWy3Zr35_4agdb2db8db_error7DbErrorEBH_:1"
+#[kani::proof]
+#[kani::stub(std::fmt::format, crate::verif_support::fmt_stub)]
+#[kani::stub(crate::DbError::new, crate::verif_support::dberror_new_stub)]
+#[kani::unwind(12)]
+fn c14_cycle_reverse() {
+    let mut s = crate::storage::verif_h::fresh_arr_storage();
+    let mut g = new_arr_graph();
+    let mut m = RefGraph::with_limit(7);
+    graph_step(&mut g, &mut s, &mut m, 0, 0, 0);
+    graph_step(&mut g, &mut s, &mut m, 0, 0, 0);
+    graph_step(&mut g, &mut s, &mut m, 0, 0, 0);
+    graph_step(&mut g, &mut s, &mut m, 1, 1, 2);
+    graph_step(&mut g, &mut s, &mut m, 1, 2, 3);
+    graph_step(&mut g, &mut s, &mut m, 1, 3, 1);
+    let r = c14_run(&g, &s, &m, 2, 2);
+    assert!(c14_is(&r, &[2, -4, 1, -6, 3, -5], &[0, 1, 2, 3, 4, 5]), "reverse BFS from 2 against the cycle");
+    std::mem::forget(r);
+    let r = c14_run(&g, &s, &m, 2, 1);
+    std::mem::forget(r);
+    let r = c14_run(&g, &s, &m, 2, 3);
+    std::mem::forget(r);
+    let r = c14_run(&g, &s, &m, 3, 2);
+    assert!(c14_is(&r, &[2, -4, 1, -6, 3, -5], &[0, 1, 2, 3, 4, 5]), "reverse DFS from 2 against the cycle");
+    std::mem::forget(r);
+    let r = c14_run(&g, &s, &m, 3, 1);
+    std::mem::forget(r);
+    let r = c14_run(&g, &s, &m, 3, 3);
+    std::mem::forget(r);
+    kani::cover!(true, "end of harness reachable");
+    std::mem::forget(s);
+}
+
+//@ id=C14 tier=quick timeout=900 bounds="concrete multigraph: nodes 1,2; edges -3 = 1->2, -4 = 1->2 (parallel), -5 = 1->1 (self-loop), -6 = 2->1; both nodes as origin; breadth_first_search and depth_first_search; handler always Continue(true)" desc="origin first at distance 0, then exactly the reachable elements once each (fix-point reachability), in the order and with the distances of the documented traversal (BFS level by level in non-decreasing distance, DFS each branch to its end, a node's edges newest first, distance counts node and edge steps); hand-derived sequences asserted literally; a node queued twice over parallel edges is returned once" kernel="GraphSearch::breadth_first_search,GraphSearch::depth_first_search,SearchImpl::search,SearchImpl::process_index,SearchImpl::visit_index,BreadthFirstSearch::expand,DepthFirstSearch::expand,BitSet::set,BitSet::value" args="--no-assertion-reach-checks" cbmc="--unwindset _RINvNtCs8xvirJzNMvV_4core3ptr9drop_glueNtNtNtCsblifWy3Zr35_4agdb2db8db_error7DbErrorEBH_:1"
+#[kani::proof]
+#[kani::stub(std::fmt::format, crate::verif_support::fmt_stub)]
+#[kani::stub(crate::DbError::new, crate::verif_support::dberror_new_stub)]
+#[kani::unwind(12)]
+fn c14_parallel_selfloop_forward() {
+    let mut s = crate::storage::verif_h::fresh_arr_storage();
+    let mut g = new_arr_graph();
+    let mut m = RefGraph::with_limit(7);
+    graph_step(&mut g, &mut s, &mut m, 0, 0, 0);
+    graph_step(&mut g, &mut s, &mut m, 0, 0, 0);
+    graph_step(&mut g, &mut s, &mut m, 1, 1, 2);
+    graph_step(&mut g, &mut s, &mut m, 1, 1, 2);
+    graph_step(&mut g, &mut s, &mut m, 1, 1, 1);
+    graph_step(&mut g, &mut s, &mut m, 1, 2, 1);
+    let r = c14_run(&g, &s, &m, 0, 1);
+    assert!(c14_is(&r, &[1, -5, -4, -3, 2, -6], &[0, 1, 1, 1, 2, 3]), "BFS from 1: self-loop, parallel edges newest first, node 2 once");
+    std::mem::forget(r);
+    let r = c14_run(&g, &s, &m, 0, 2);
+    assert!(c14_is(&r, &[2, -6, 1, -5, -4, -3], &[0, 1, 2, 3, 3, 3]), "BFS from 2");
+    std::mem::forget(r);
+    let r = c14_run(&g, &s, &m, 1, 1);
+    assert!(c14_is(&r, &[1, -5, -4, 2, -6, -3], &[0, 1, 1, 2, 3, 1]), "DFS from 1: branch over -4 finished before the older parallel edge -3");
+    std::mem::forget(r);
+    let r = c14_run(&g, &s, &m, 1, 2);
+    assert!(c14_is(&r, &[2, -6, 1, -5, -4, -3], &[0, 1, 2, 3, 3, 3]), "DFS from 2");
+    std::mem::forget(r);
+    kani::cover!(true, "end of harness reachable");
+    std::mem::forget(s);
+}
+
+//@ id=C14 tier=quick timeout=900 bounds="concrete multigraph: nodes 1,2; edges -3 = 1->2, -4 = 1->2, -5 = 1->1, -6 = 2->1; both nodes as origin; breadth_first_search_reverse and depth_first_search_reverse; handler always Continue(true)" desc="origin first at distance 0, then exactly the reachable elements once each (fix-point reachability), in the order and with the distances of the documented traversal (BFS level by level in non-decreasing distance, DFS each branch to its end, a node's edges newest first, distance counts node and edge steps); hand-derived sequences asserted literally" kernel="GraphSearch::breadth_first_search_reverse,GraphSearch::depth_first_search_reverse,SearchImpl::search,SearchImpl::process_index,SearchImpl::visit_index,BreadthFirstSearchReverse::expand,DepthFirstSearchReverse::expand,BitSet::set,BitSet::value" args="--no-assertion-reach-checks" cbmc="--unwindset _RINvNtCs8xvirJzNMvV_4core3ptr9drop_glueNtNtNtCsblifWy3Zr35_4agdb2db8db_error7DbErrorEBH_:1"
+#[kani::proof]
+#[kani::stub(std::fmt::format, crate::verif_support::fmt_stub)]
+#[kani::stub(crate::DbError::new, crate::verif_support::dberror_new_stub)]
+#[kani::unwind(12)]
+fn c14_parallel_selfloop_reverse() {
+    let mut s = crate::storage::verif_h::fresh_arr_storage();
+    let mut g = new_arr_graph();
+    let mut m = RefGraph::with_limit(7);
+    graph_step(&mut g, &mut s, &mut m, 0, 0, 0);
+    graph_step(&mut g, &mut s, &mut m, 0, 0, 0);
+    graph_step(&mut g, &mut s, &mut m, 1, 1, 2);
+    graph_step(&mut g, &mut s, &mut m, 1, 1, 2);
+    graph_step(&mut g, &mut s, &mut m, 1, 1, 1);
+    graph_step(&mut g, &mut s, &mut m, 1, 2, 1);
+    let r = c14_run(&g, &s, &m, 2, 1);
+    assert!(c14_is(&r, &[1, -6, -5, 2, -4, -3], &[0, 1, 1, 2, 3, 3]), "reverse BFS from 1");
+    std::mem::forget(r);
+    let r = c14_run(&g, &s, &m, 2, 2);
+    assert!(c14_is(&r, &[2, -4, -3, 1, -6, -5], &[0, 1, 1, 2, 3, 3]), "reverse BFS from 2");
+    std::mem::forget(r);
+    let r = c14_run(&g, &s, &m, 3, 1);
+    assert!(c14_is(&r, &[1, -6, 2, -4, -3, -5], &[0, 1, 2, 3, 3, 1]), "reverse DFS from 1");
+    std::mem::forget(r);
+    let r = c14_run(&g, &s, &m, 3, 2);
+    assert!(c14_is(&r, &[2, -4, 1, -6, -5, -3], &[0, 1, 2, 3, 3, 1]), "reverse DFS from 2");
+    std::mem::forget(r);
+    kani::cover!(true, "end of harness reachable");
+    std::mem::forget(s);
+}
+
+//@ id=C14 tier=quick timeout=900 bounds="concrete graph with a removed and re-inserted edge: nodes 1,2,3; -4 = 1->2, -5 = 1->3, -6 = 1->2, then remove -5 and insert 1->3 again (reuses id -5 but is the newest edge); origin 1 forward, origins 2 and 3 reverse; all four searches; handler always Continue(true)" desc="origin first at distance 0, then exactly the reachable elements once each (fix-point reachability), in the order and with the distances of the documented traversal (BFS level by level in non-decreasing distance, DFS each branch to its end, a node's edges newest first, distance counts node and edge steps); hand-derived sequences asserted literally; sibling order follows recency of connection, not the id" kernel="GraphSearch::breadth_first_search,GraphSearch::depth_first_search,SearchImpl::search,SearchImpl::process_index,SearchImpl::visit_index,BreadthFirstSearch::expand,DepthFirstSearch::expand,BitSet::set,BitSet::value,GraphSearch::breadth_first_search_reverse,GraphSearch::depth_first_search_reverse,SearchImpl::search,SearchImpl::process_index,SearchImpl::visit_index,BreadthFirstSearchReverse::expand,DepthFirstSearchReverse::expand,BitSet::set,BitSet::value" args="--no-assertion-reach-checks" cbmc="--unwindset _RINvNtCs8xvirJzNMvV_4core3ptr9drop_glueNtNtNtCsblifWy3Zr35_4agdb2db8db_error7DbErrorEBH_:1"
+#[kani::proof]
+#[kani::stub(std::fmt::format, crate::verif_support::fmt_stub)]
+#[kani::stub(crate::DbError::new, crate::verif_support::dberror_new_stub)]
+#[kani::unwind(12)]
+fn c14_reused_slot_order() {
+    let mut s = crate::storage::verif_h::fresh_arr_storage();
+    let mut g = new_arr_graph();
+    let mut m = RefGraph::with_limit(7);
+    graph_step(&mut g, &mut s, &mut m, 0, 0, 0);
+    graph_step(&mut g, &mut s, &mut m, 0, 0, 0);
+    graph_step(&mut g, &mut s, &mut m, 0, 0, 0);
+    graph_step(&mut g, &mut s, &mut m, 1, 1, 2);
+    graph_step(&mut g, &mut s, &mut m, 1, 1, 3);
+    graph_step(&mut g, &mut s, &mut m, 1, 1, 2);
+    graph_step(&mut g, &mut s, &mut m, 3, -5, 0);
+    graph_step(&mut g, &mut s, &mut m, 1, 1, 3);
+    let r = c14_run(&g, &s, &m, 0, 1);
+    assert!(c14_is(&r, &[1, -5, -6, -4, 3, 2], &[0, 1, 1, 1, 2, 2]), "BFS from 1: re-inserted edge first");
+    std::mem::forget(r);
+    let r = c14_run(&g, &s, &m, 1, 1);
+    assert!(c14_is(&r, &[1, -5, 3, -6, 2, -4], &[0, 1, 2, 1, 2, 1]), "DFS from 1: re-inserted edge first");
+    std::mem::forget(r);
+    let r = c14_run(&g, &s, &m, 2, 2);
+    assert!(c14_is(&r, &[2, -6, -4, 1], &[0, 1, 1, 2]), "reverse BFS from 2");
+    std::mem::forget(r);
+    let r = c14_run(&g, &s, &m, 3, 2);
+    assert!(c14_is(&r, &[2, -6, 1, -4], &[0, 1, 2, 1]), "reverse DFS from 2");
+    std::mem::forget(r);
+    let r = c14_run(&g, &s, &m, 2, 3);
+    assert!(c14_is(&r, &[3, -5, 1], &[0, 1, 2]), "reverse BFS from 3");
+    std::mem::forget(r);
+    let r = c14_run(&g, &s, &m, 3, 3);
+    std::mem::forget(r);
+    kani::cover!(true, "end of harness reachable");
+    std::mem::forget(s);
+}
+
+//@ id=C14 tier=quick timeout=900 bounds="concrete graph: nodes 1,2,3; edges -4 = 1->2, -5 = 1->3, -6 = 2->3; origins = edges that are the oldest in the adjacency list the search walks (forward: -4, -6; reverse: -4, -5); all four searches; handler always Continue(true)" desc="a search started at an edge returns that edge first, then its far end (target forward, origin node in reverse) and everything reachable from there, once each, with the documented order and distances" kernel="GraphSearch::breadth_first_search,GraphSearch::depth_first_search,SearchImpl::search,SearchImpl::process_index,SearchImpl::visit_index,BreadthFirstSearch::expand,DepthFirstSearch::expand,BitSet::set,BitSet::value,GraphSearch::breadth_first_search_reverse,GraphSearch::depth_first_search_reverse,SearchImpl::search,SearchImpl::process_index,SearchImpl::visit_index,BreadthFirstSearchReverse::expand,DepthFirstSearchReverse::expand,BitSet::set,BitSet::value" args="--no-assertion-reach-checks" cbmc="--unwindset _RINvNtCs8xvirJzNMvV_4core3ptr9drop_glueNtNtNtCsblifWy3Zr35_4agdb2db8db_error7DbErrorEBH_:1"
+#[kani::proof]
+#[kani::stub(std::fmt::format, crate::verif_support::fmt_stub)]
+#[kani::stub(crate::DbError::new, crate::verif_support::dberror_new_stub)]
+#[kani::unwind(12)]
+fn c14_edge_origin_oldest_sibling() {
+    let mut s = crate::storage::verif_h::fresh_arr_storage();
+    let mut g = new_arr_graph();
+    let mut m = RefGraph::with_limit(7);
+    graph_step(&mut g, &mut s, &mut m, 0, 0, 0);
+    graph_step(&mut g, &mut s, &mut m, 0, 0, 0);
+    graph_step(&mut g, &mut s, &mut m, 0, 0, 0);
+    graph_step(&mut g, &mut s, &mut m, 1, 1, 2);
+    graph_step(&mut g, &mut s, &mut m, 1, 1, 3);
+    graph_step(&mut g, &mut s, &mut m, 1, 2, 3);
+    let r = c14_run(&g, &s, &m, 0, -4);
+    assert!(c14_is(&r, &[-4, 2, -6, 3], &[0, 1, 2, 3]), "BFS from edge -4");
+    std::mem::forget(r);
+    let r = c14_run(&g, &s, &m, 1, -4);
+    assert!(c14_is(&r, &[-4, 2, -6, 3], &[0, 1, 2, 3]), "DFS from edge -4");
+    std::mem::forget(r);
+    let r = c14_run(&g, &s, &m, 0, -6);
+    assert!(c14_is(&r, &[-6, 3], &[0, 1]), "BFS from edge -6");
+    std::mem::forget(r);
+    let r = c14_run(&g, &s, &m, 2, -5);
+    assert!(c14_is(&r, &[-5, 1], &[0, 1]), "reverse BFS from edge -5");
+    std::mem::forget(r);
+    let r = c14_run(&g, &s, &m, 3, -4);
+    assert!(c14_is(&r, &[-4, 1], &[0, 1]), "reverse DFS from edge -4");
+    std::mem::forget(r);
+    let r = c14_run(&g, &s, &m, 2, -4);
+    std::mem::forget(r);
+    kani::cover!(true, "end of harness reachable");
+    std::mem::forget(s);
+}
+
+//@ id=C14 tier=quick timeout=900 bounds="concrete graph: nodes 1,2,3; edges -4 = 1->2, -5 = 1->3, -6 = 2->3; origins = edges that have an older sibling in the adjacency list the search walks (forward: -5, whose older sibling is -4; reverse: -6, whose older sibling is -5); all four searches; handler always Continue(true)" desc="a search started at an edge returns that edge first, then its far end (target forward, origin node in reverse) and everything reachable from there, once each, with the documented order and distances; the origin edge's sibling edges and their far ends are NOT reachable from it and must not be returned" kernel="GraphSearch::breadth_first_search,GraphSearch::depth_first_search,SearchImpl::search,SearchImpl::process_index,SearchImpl::visit_index,BreadthFirstSearch::expand,DepthFirstSearch::expand,BitSet::set,BitSet::value,GraphSearch::breadth_first_search_reverse,GraphSearch::depth_first_search_reverse,SearchImpl::search,SearchImpl::process_index,SearchImpl::visit_index,BreadthFirstSearchReverse::expand,DepthFirstSearchReverse::expand,BitSet::set,BitSet::value" args="--no-assertion-reach-checks" cbmc="--unwindset _RINvNtCs8xvirJzNMvV_4core3ptr9drop_glueNtNtNtCsblifWy3Zr35_4agdb2db8db_error7DbErrorEBH_:1"
+#[kani::proof]
+#[kani::stub(std::fmt::format, crate::verif_support::fmt_stub)]
+#[kani::stub(crate::DbError::new, crate::verif_support::dberror_new_stub)]
+#[kani::unwind(12)]
+fn c14_edge_origin_with_older_sibling() {
+    let mut s = crate::storage::verif_h::fresh_arr_storage();
+    let mut g = new_arr_graph();
+    let mut m = RefGraph::with_limit(7);
+    graph_step(&mut g, &mut s, &mut m, 0, 0, 0);
+    graph_step(&mut g, &mut s, &mut m, 0, 0, 0);
+    graph_step(&mut g, &mut s, &mut m, 0, 0, 0);
+    graph_step(&mut g, &mut s, &mut m, 1, 1, 2);
+    graph_step(&mut g, &mut s, &mut m, 1, 1, 3);
+    graph_step(&mut g, &mut s, &mut m, 1, 2, 3);
+    let r = c14_run(&g, &s, &m, 0, -5);
+    assert!(c14_is(&r, &[-5, 3], &[0, 1]), "BFS from edge -5: only the edge and node 3");
+    std::mem::forget(r);
+    let r = c14_run(&g, &s, &m, 1, -5);
+    assert!(c14_is(&r, &[-5, 3], &[0, 1]), "DFS from edge -5");
+    std::mem::forget(r);
+    let r = c14_run(&g, &s, &m, 2, -6);
+    assert!(c14_is(&r, &[-6, 2, -4, 1], &[0, 1, 2, 3]), "reverse BFS from edge -6");
+    std::mem::forget(r);
+    let r = c14_run(&g, &s, &m, 3, -6);
+    assert!(c14_is(&r, &[-6, 2, -4, 1], &[0, 1, 2, 3]), "reverse DFS from edge -6");
+    std::mem::forget(r);
+    kani::cover!(true, "end of harness reachable");
+    std::mem::forget(s);
+}
+
+//@ id=C14 tier=quick timeout=900 bounds="concrete history: nodes 1,2,3; 1->2, 2->3, 1->3 (-6), 3->1 (-7); remove node 2 with its two edges; insert node (reuses id 2); insert edge 2->1 (reuses id -4, newest); origins 1, 2, 3; all four searches; handler always Continue(true)" desc="after a cascade removal and slot reuse the searches return the origin first, then exactly the elements reachable in the current graph once each (removed elements never), in the documented order and with the documented distances; sibling order follows recency, not id; hand-derived sequences asserted literally" kernel="GraphSearch::breadth_first_search,GraphSearch::depth_first_search,GraphSearch::breadth_first_search_reverse,GraphSearch::depth_first_search_reverse,SearchImpl::search,SearchImpl::visit_index,BreadthFirstSearch::expand,DepthFirstSearch::expand,BreadthFirstSearchReverse::expand,DepthFirstSearchReverse::expand,GraphImpl::remove_node" args="--no-assertion-reach-checks" cbmc="--unwindset _RINvNtCs8xvirJzNMvV_4core3ptr9drop_glueNtNtNtCsblifWy3Zr35_4agdb2db8db_error7DbErrorEBH_:1"
+#[kani::proof]
+#[kani::stub(std::fmt::format, crate::verif_support::fmt_stub)]
+#[kani::stub(crate::DbError::new, crate::verif_support::dberror_new_stub)]
+#[kani::unwind(12)]
+fn c14_after_node_removal() {
+    let mut s = crate::storage::verif_h::fresh_arr_storage();
+    let mut g = new_arr_graph();
+    let mut m = RefGraph::with_limit(8);
+    graph_step(&mut g, &mut s, &mut m, 0, 0, 0);
+    graph_step(&mut g, &mut s, &mut m, 0, 0, 0);
+    graph_step(&mut g, &mut s, &mut m, 0, 0, 0);
+    graph_step(&mut g, &mut s, &mut m, 1, 1, 2);
+    graph_step(&mut g, &mut s, &mut m, 1, 2, 3);
+    graph_step(&mut g, &mut s, &mut m, 1, 1, 3);
+    graph_step(&mut g, &mut s, &mut m, 1, 3, 1);
+    graph_step(&mut g, &mut s, &mut m, 2, 2, 0);
+    graph_step(&mut g, &mut s, &mut m, 0, 0, 0);
+    assert!(m.is_node(2), "new node did not reuse id 2");
+    graph_step(&mut g, &mut s, &mut m, 1, 2, 1);
+    assert!(m.is_edge(-4) && !m.is_edge(-5), "new edge did not reuse id -4");
+    let r = c14_run(&g, &s, &m, 0, 2);
+    assert!(c14_is(&r, &[2, -4, 1, -6, 3, -7], &[0, 1, 2, 3, 4, 5]), "BFS from the re-inserted node");
+    std::mem::forget(r);
+    let r = c14_run(&g, &s, &m, 1, 1);
+    assert!(c14_is(&r, &[1, -6, 3, -7], &[0, 1, 2, 3]), "DFS from 1: node 2 is not reachable any more");
+    std::mem::forget(r);
+    let r = c14_run(&g, &s, &m, 2, 1);
+    assert!(c14_is(&r, &[1, -4, -7, 2, 3, -6], &[0, 1, 1, 2, 2, 3]), "reverse BFS from 1: reused edge id -4 is the newest incoming edge");
+    std::mem::forget(r);
+    let r = c14_run(&g, &s, &m, 3, 1);
+    assert!(c14_is(&r, &[1, -4, 2, -7, 3, -6], &[0, 1, 2, 1, 2, 3]), "reverse DFS from 1");
+    std::mem::forget(r);
+    let r = c14_run(&g, &s, &m, 0, 3);
+    std::mem::forget(r);
+    let r = c14_run(&g, &s, &m, 3, 3);
+    std::mem::forget(r);
+    kani::cover!(true, "end of harness reachable");
+    std::mem::forget(s);
+}
